@@ -71,6 +71,9 @@ def run(ctx):
     # TRACE: seeded wide-domain tracks with many sustains over multi-segment tempo maps
     cases = _notes.seeded_tracks(ctx, "C03", ctx.pick(400, 6000), sustain_p=0.7)
     _notes._judge(ctx, cases, "C03", "seeded tracks", max_skip_ratio=0.01)
+    # several instrument sections in one chart, each judged as if it were alone
+    cases = _notes.seeded_multi(ctx, "C03", ctx.pick(150, 2500), sustain_p=0.7)
+    _notes._judge_multi(ctx, cases, "C03", "seeded charts with several sections", max_skip_ratio=0.02)
     ctx.assumptions += [
         "domain: well-formed section; an open note's own line precedes its flag lines (the library documents other orders as undefined)",
         "exactness of the end time against the tempo map is decided by C01; here end time must equal the un-hinted query at the end tick",
